@@ -219,7 +219,7 @@ Proof.
     eapply wp_mono; [apply occ_ref_lawful; rewrite Hs1; assumption | | intros w' []]; cbn beta.
     intros i w2 [-> ->]. rewrite Hs1. auto.
   - destruct He as [-> Hl1]. cbn [or_insert_with].
-    apply wp_bind. eapply wp_mono; [apply call_mk_lawful; exact Hfn | | intros w' []]; cbn beta.
+    apply wp_bind. apply wp_on_unwind_nopanic. eapply wp_mono; [apply call_mk_lawful; exact Hfn | | intros w' []]; cbn beta.
     intros v w2 (Hs2 & Hl2 & Hfv).
     assert (Hs : self w2 = self w) by congruence.
     eapply wp_mono; [apply vac_insert_lawful; rewrite Hs; assumption | |]; cbn beta; rewrite Hs.
@@ -257,7 +257,7 @@ Proof.
     eapply wp_mono; [apply occ_ref_lawful; rewrite Hs1; assumption | | intros w' []]; cbn beta.
     intros i w2 [-> ->]. rewrite Hs1. auto.
   - destruct He as [-> Hl1]. cbn [or_insert_with_key].
-    apply wp_bind. eapply wp_mono; [apply call_mk_lawful; exact Hfn | | intros w' []]; cbn beta.
+    apply wp_bind. apply wp_on_unwind_nopanic. eapply wp_mono; [apply call_mk_lawful; exact Hfn | | intros w' []]; cbn beta.
     intros v w2 (Hs2 & Hl2 & Hfv).
     assert (Hs : self w2 = self w) by congruence.
     eapply wp_mono; [apply vac_insert_lawful; rewrite Hs; assumption | |]; cbn beta; rewrite Hs.
